@@ -55,9 +55,14 @@ def run(ctx):
     nruns = 10 if ctx.quick else 260
     must = [pools.option(shutoff=s) for s in (rng.sample(pools.FAMILIES["shutoff"], 3) if ctx.quick else pools.FAMILIES["shutoff"])]
     runs = pools.sample_runs(rng, nruns, must=must)
-    # the recorded witness of the known finding runs first (kept out of the random re-draws below)
-    pinned = [{"iso3": "VNM", "option": pools.option(shutoff="short_delayed_shutoff",
-                                                      MINIMUM_PERCENT_FED_BEFORE_NONHUMAN_CONSUMPTION_ALLOWED=100)}]
+    # recorded witnesses (corpus) run first and are kept out of the random re-draws below
+    import os
+    pinned = []
+    cdir = "/verif/corpus/C03"
+    if os.path.isdir(cdir):
+        for f in sorted(os.listdir(cdir))[: (2 if ctx.quick else 1000)]:
+            c = json.load(open(os.path.join(cdir, f)))
+            pinned.append({"iso3": c["iso3"], "option": c["option"]})
     for r in runs:
         if rng.random() < 0.45:
             r["option"]["MINIMUM_PERCENT_FED_BEFORE_NONHUMAN_CONSUMPTION_ALLOWED"] = rng.choice([0, 10, 50, 90, 100])
